@@ -165,6 +165,12 @@ def signature(draw, leaf):
 
     po, nd = plist(["p0", "p1"][: draw(st.sampled_from([0, 0, 0, 1, 2]))])
     pk_names = ["a", "b", "c"][: draw(st.integers(0, 3))]
+    if draw(st.integers(0, 7)) == 0:
+        # parameter names that the template machinery uses for itself (Partial(ctor, ...), Controller.s(cls, ...)): an element may own them
+        pk_names = ["ctor", "cls", "c"][: len(pk_names)]
+        reserved_names = True
+    else:
+        reserved_names = False
     if leaf and draw(st.integers(0, 5)) == 0:
         pk_names = ["target"] + pk_names  # a pool may legitimately own a parameter called target
     pk, _ = plist(pk_names, nd)
@@ -172,7 +178,7 @@ def signature(draw, leaf):
     if not leaf and draw(st.integers(0, 7)) == 0:
         return {"po": [], "pk": [], "va": True, "ko": [], "vk": True, "implicit_target": True}
     return {"po": po, "pk": pk, "va": draw(st.booleans()) and draw(st.booleans()), "ko": ko,
-            "vk": draw(st.booleans()) and draw(st.booleans()), "via_new": draw(st.integers(0, 5)) == 0}
+            "vk": draw(st.booleans()) and draw(st.booleans()), "via_new": not reserved_names and draw(st.integers(0, 5)) == 0}
 
 
 _val = itertools.count(100)
